@@ -605,7 +605,20 @@ type result struct {
 	agentClass string
 	retAnn     string // blob: what the annotations of the returned descriptor were
 	faultClass string // fault-history: how the call with the failing reader ended
+	notes      []string
+	signFailed bool
 	detail     map[string]any
+}
+
+// note records an observation the statement does not fix: evidence only ("recorded:<key>" in the outcome histogram).
+func (res *result) note(key string) { res.notes = append(res.notes, key) }
+
+// noteSignFailed: the statement is about signatures the signing API produced; a refused input is recorded, the
+// round trip is not judged (a signer kind that can never sign ends the run as an infrastructure error, see main).
+func (res *result) noteSignFailed(c *caseT, err error) {
+	res.note("roundtrip/sign-failed:" + c.Signer)
+	res.signFailed = true
+	res.detail = map[string]any{"sign_error": err.Error()}
 }
 
 func (res *result) bad(key, format string, a ...any) {
@@ -665,7 +678,7 @@ func judgePayload(res *result, c *caseT, raw []byte, want wantT, blob bool) {
 	}
 	for _, k := range sortedKeys(top) {
 		if k != "targetArtifact" {
-			res.bad("payload/unknown-top-level-field", "payload has member %q: %s", k, raw)
+			res.note("payload/unknown-top-level-field") // the statement speaks about the descriptor in the payload only
 		}
 	}
 	var ta map[string]json.RawMessage
@@ -694,7 +707,7 @@ func judgePayload(res *result, c *caseT, raw []byte, want wantT, blob bool) {
 			res.bad("payload/digest-differs", "payload digest %s, expected %q", ta["digest"], want.Digest)
 		}
 	}
-	if err := json.Unmarshal(ta["size"], &size); err != nil || size.String() != fmt.Sprint(want.Size) {
+	if err := json.Unmarshal(ta["size"], &size); err != nil || !sameNumber(size, want.Size) {
 		res.bad("payload/size-differs", "payload size %s, expected %d", ta["size"], want.Size)
 	}
 	var ann map[string]string
@@ -706,6 +719,44 @@ func judgePayload(res *result, c *caseT, raw []byte, want wantT, blob bool) {
 	}
 	if !sameMap(ann, want.Annotations) {
 		res.bad("payload/annotations-differ", "payload annotations %s, expected (original annotations + user metadata) %s", vt.MapString(ann), vt.MapString(want.Annotations))
+	}
+}
+
+func sameNumber(n json.Number, want int64) bool {
+	if i, err := n.Int64(); err == nil {
+		return i == want
+	}
+	f, err := n.Float64()
+	return err == nil && f == float64(want)
+}
+
+// sameJSON: semantic equality of two JSON documents.
+func sameJSON(a, b []byte) bool {
+	var x, y any
+	if json.Unmarshal(a, &x) != nil || json.Unmarshal(b, &y) != nil {
+		return bytes.Equal(a, b)
+	}
+	return reflect.DeepEqual(x, y)
+}
+
+// judgeReadBack: "the user metadata read back from the outcome is exactly the metadata that was signed". Where the
+// target had annotations of its own (OCI), the statement does not say whether they count as user metadata: every
+// signed user pair must be read back and nothing but signed pairs; without such annotations this is equality.
+func judgeReadBack(res *result, um, userMeta, ownAnnotations map[string]string, how string) {
+	ok := true
+	for k, v := range userMeta {
+		if g, in := um[k]; !in || g != v {
+			ok = false
+		}
+	}
+	signed := union(ownAnnotations, userMeta)
+	for k, v := range um {
+		if g, in := signed[k]; !in || g != v {
+			ok = false
+		}
+	}
+	if !ok {
+		res.bad("metadata/read-back-differs", "%sUserMetadata() = %s, signed user metadata %s (annotations of the target itself: %s)", how, vt.MapString(um), vt.MapString(userMeta), vt.MapString(ownAnnotations))
 	}
 }
 
@@ -735,27 +786,30 @@ func agentClass(got, requested string) string {
 }
 
 // judgeOutcome evaluates everything that is read from a successful verification outcome.
-func judgeOutcome(res *result, c *caseT, sig []byte, outcome *notation.VerificationOutcome, want wantT, wantMeta map[string]string, agentRequested string, blob bool) {
+func judgeOutcome(res *result, c *caseT, sig []byte, outcome *notation.VerificationOutcome, want wantT, userMeta, ownAnnotations map[string]string, agentRequested string, blob bool) {
 	if outcome == nil || outcome.EnvelopeContent == nil {
 		res.bad("roundtrip/no-envelope-content-on-success", "verification succeeded without envelope content")
 		return
 	}
 	if outcome.Error != nil {
-		res.bad("roundtrip/outcome-error-on-success", "verification returned nil error but outcome.Error = %v", outcome.Error)
+		res.note("roundtrip/outcome-error-on-success") // the statement fixes the returned error, not this field
 	}
 	payload := outcome.EnvelopeContent.Payload.Content
 	judgePayload(res, c, payload, want, blob)
 
-	// independent re-verification of the same bytes
+	// independent reading of the same bytes: what was signed is what is reported (semantically). That lib/refsig can
+	// read and check the envelope at all is not part of the statement: recorded only.
 	ref, err := refsig.Verify(c.Format, sig)
 	if err != nil {
-		res.bad("roundtrip/independent-verification-failed:"+c.Signer, "lib/refsig rejects the signature the library produced and accepted: %v", err)
+		res.note("roundtrip/independent-verification-failed:" + c.Signer)
 	} else {
-		if !bytes.Equal(ref.Payload, payload) {
+		if !sameJSON(ref.Payload, payload) {
 			res.bad("roundtrip/reported-payload-differs-from-signed-bytes", "reported %s, signed %s", payload, ref.Payload)
+		} else if !bytes.Equal(ref.Payload, payload) {
+			res.note("roundtrip/reported-payload-not-byte-identical-to-signed-bytes")
 		}
 		if ref.ContentType != forge.PayloadType {
-			res.bad("roundtrip/payload-content-type", "content type %q", ref.ContentType)
+			res.note("roundtrip/payload-content-type")
 		}
 	}
 
@@ -774,8 +828,8 @@ func judgeOutcome(res *result, c *caseT, sig []byte, outcome *notation.Verificat
 	um, err := outcome.UserMetadata()
 	if err != nil {
 		res.bad("metadata/read-back-error", "UserMetadata(): %v", err)
-	} else if !sameMap(um, wantMeta) {
-		res.bad("metadata/read-back-differs", "UserMetadata() = %s, signed %s", vt.MapString(um), vt.MapString(wantMeta))
+	} else {
+		judgeReadBack(res, um, userMeta, ownAnnotations, "")
 	}
 
 	got := outcome.EnvelopeContent.SignerInfo.UnsignedAttributes.SigningAgent
@@ -786,10 +840,12 @@ func judgeOutcome(res *result, c *caseT, sig []byte, outcome *notation.Verificat
 	}
 }
 
-// checkForwarded: an honest envelope generator can only honour the duration it is told.
+// checkForwarded records (evidence only) whether the envelope generator was told the requested duration.
 func checkForwarded(res *result, c *caseT, envp *envPlugin) {
 	if envp != nil && envp.lastReq != nil && envp.lastReq.ExpiryDurationInSeconds != uint64(c.ExpirySec) {
-		res.bad("expiry/not-forwarded-to-envelope-plugin", "generate-envelope request carries expiryDurationInSeconds=%d, requested %d", envp.lastReq.ExpiryDurationInSeconds, c.ExpirySec)
+		// what the plugin is told is not fixed by the statement; an honest plugin that is not told the duration
+		// shows up in expiry/not-signing-time-plus-duration
+		res.note("expiry/not-forwarded-to-envelope-plugin")
 	}
 }
 
@@ -850,20 +906,19 @@ func verifyOpts(signedAnnotations map[string]string, blob bool) []verifyOpt {
 	return out
 }
 
-// judgeAlternate: a verification of the same signature under other verify-side options reports the same payload and metadata.
-func judgeAlternate(res *result, o *notation.VerificationOutcome, primaryPayload []byte, signed map[string]string, vo verifyOpt) {
+// judgeAlternate: a successful verification of the same signature under other verify-side options is judged by the
+// same stated clauses: the verified payload and the metadata read back.
+func judgeAlternate(res *result, c *caseT, o *notation.VerificationOutcome, want wantT, userMeta, ownAnnotations map[string]string, blob bool, vo verifyOpt) {
 	if o == nil || o.EnvelopeContent == nil {
 		res.bad("roundtrip/no-envelope-content-on-success", "verification (%s) succeeded without envelope content", vo.label)
 		return
 	}
-	if !bytes.Equal(o.EnvelopeContent.Payload.Content, primaryPayload) {
-		res.bad("verify-options/reported-payload-differs", "verification (%s) reports payload %s, without options %s", vo.label, o.EnvelopeContent.Payload.Content, primaryPayload)
-	}
+	judgePayload(res, c, o.EnvelopeContent.Payload.Content, want, blob)
 	um, err := o.UserMetadata()
 	if err != nil {
 		res.bad("metadata/read-back-error", "UserMetadata() (%s): %v", vo.label, err)
-	} else if !sameMap(um, signed) {
-		res.bad("metadata/read-back-differs", "verification requiring %s: UserMetadata() = %s, signed %s", vt.MapString(vo.required), vt.MapString(um), vt.MapString(signed))
+	} else {
+		judgeReadBack(res, um, userMeta, ownAnnotations, "verification requiring "+vt.MapString(vo.required)+": ")
 	}
 }
 
@@ -915,6 +970,7 @@ func (w *world) runCase(r *hx.Run, c *caseT) *result {
 	}
 	// what went wrong before the judged round trip keeps its ordinary key
 	res.viols = append(pre.viols, res.viols...)
+	res.notes = append(pre.notes, res.notes...)
 	res.faultClass = faultClass
 	return res
 }
@@ -942,7 +998,7 @@ func (w *world) faultCall(r *hx.Run, c *caseT, in *instances, pre *result) strin
 		var sig []byte
 		sig, _, err = notation.SignBlob(ctx, in.s, bytes.NewReader(poison), notation.SignBlobOptions{SignerSignOptions: so, ContentMediaType: blobMTs[0]})
 		if err != nil {
-			pre.bad("roundtrip/sign-failed:"+c.Signer, "notation.SignBlob failed for a legal input: %v", err)
+			pre.noteSignFailed(c, err)
 			return "not-reached"
 		}
 		_, _, err = notation.VerifyBlob(ctx, in.v, failing(), sig, notation.VerifyBlobOptions{
@@ -986,7 +1042,7 @@ func (w *world) roundTrip(r *hx.Run, c *caseT, in *instances) *result {
 		r.Eval(1)
 		sig, _, err := notation.SignBlob(ctx, s, blobReader(content, c.Delivery), notation.SignBlobOptions{SignerSignOptions: so, ContentMediaType: t.MT, UserMetadata: metaArg})
 		if err != nil {
-			res.bad("roundtrip/sign-failed:"+c.Signer, "notation.SignBlob failed for a legal input: %v", err)
+			res.noteSignFailed(c, err)
 			return res
 		}
 		checkForwarded(res, c, envp)
@@ -1004,7 +1060,7 @@ func (w *world) roundTrip(r *hx.Run, c *caseT, in *instances) *result {
 			return res
 		}
 		res.verified = true
-		judgeOutcome(res, c, sig, outcome, want, meta, agent, true)
+		judgeOutcome(res, c, sig, outcome, want, meta, nil, agent, true)
 		// the descriptor of the blob that was verified: media type, digest, size (the statement fixes nothing about annotations)
 		if desc.MediaType != want.MediaType || string(desc.Digest) != want.Digest || desc.Size != want.Size {
 			res.bad("blob/returned-descriptor-differs", "VerifyBlob returned {mediaType:%q digest:%q size:%d}, the verified blob is {mediaType:%q digest:%q size:%d}",
@@ -1020,14 +1076,14 @@ func (w *world) roundTrip(r *hx.Run, c *caseT, in *instances) *result {
 		default:
 			res.retAnn = "other"
 		}
-		// verify-side options vary independently of the sign-side ones: the same blob and signature must verify, and
-		// the descriptor of the blob, the reported payload and the read-back metadata cannot depend on them
+		// verify-side options vary independently of the sign-side ones. Whether the verifier accepts a setting is not
+		// fixed by the statement (recorded); where it does, the same stated clauses hold, and the descriptor of the
+		// blob that was verified cannot depend on the setting
 		if outcome == nil || outcome.EnvelopeContent == nil {
 			return res
 		}
 		kept := desc
 		kept.Annotations = copyMap(desc.Annotations)
-		primaryPayload := append([]byte(nil), outcome.EnvelopeContent.Payload.Content...)
 		for _, vo := range verifyOpts(meta, true) {
 			mt := t.MT
 			if vo.noMT {
@@ -1037,21 +1093,21 @@ func (w *world) roundTrip(r *hx.Run, c *caseT, in *instances) *result {
 			d2, o2, err := notation.VerifyBlob(ctx, in.v, bytes.NewReader(content), sig, notation.VerifyBlobOptions{
 				BlobVerifierVerifyOptions: notation.BlobVerifierVerifyOptions{SignatureMediaType: c.Format, UserMetadata: copyMap(vo.required)}, ContentMediaType: mt})
 			if err != nil {
-				res.bad("verify-options/verification-failed:"+vo.label, "notation.VerifyBlob with ContentMediaType=%q UserMetadata=%s rejects the signature (signed: media type %q, metadata %s): %v", mt, vt.MapString(vo.required), t.MT, vt.MapString(meta), err)
+				res.note("verify-options/verification-failed:" + vo.label)
 				continue
 			}
 			if d2.MediaType != want.MediaType || string(d2.Digest) != want.Digest || d2.Size != want.Size {
 				res.bad("blob/returned-descriptor-differs", "VerifyBlob with ContentMediaType=%q UserMetadata=%s returned {mediaType:%q digest:%q size:%d}, the verified blob is {mediaType:%q digest:%q size:%d}",
 					mt, vt.MapString(vo.required), d2.MediaType, d2.Digest, d2.Size, want.MediaType, want.Digest, want.Size)
 			}
-			if !reflect.DeepEqual(d2, kept) && !(len(d2.Annotations) == 0 && len(kept.Annotations) == 0 && d2.MediaType == kept.MediaType && d2.Digest == kept.Digest && d2.Size == kept.Size) {
+			if d2.MediaType != kept.MediaType || d2.Digest != kept.Digest || d2.Size != kept.Size || !sameMap(d2.Annotations, kept.Annotations) {
 				res.bad("blob/returned-descriptor-depends-on-verify-options", "same blob, same signature: VerifyBlob returned %+v with ContentMediaType=%q UserMetadata=%s, but %+v with ContentMediaType=%q and no required metadata",
 					d2, mt, vt.MapString(vo.required), kept, t.MT)
 			}
-			judgeAlternate(res, o2, primaryPayload, meta, vo)
+			judgeAlternate(res, c, o2, want, meta, nil, true, vo)
 		}
 		if !reflect.DeepEqual(desc, kept) {
-			res.bad("blob/returned-descriptor-changed-by-later-calls", "the descriptor returned by the first VerifyBlob changed from %+v to %+v", kept, desc)
+			res.note("blob/returned-descriptor-changed-by-later-calls") // aliasing of a returned value: not in the statement
 		}
 		return res
 	}
@@ -1071,7 +1127,7 @@ func (w *world) roundTrip(r *hx.Run, c *caseT, in *instances) *result {
 		// no user metadata: the Signer interface directly
 		sig, _, err = s.Sign(ctx, desc, so)
 		if err != nil {
-			res.bad("roundtrip/sign-failed:"+c.Signer, "Signer.Sign failed for a legal input: %v", err)
+			res.noteSignFailed(c, err)
 			return res
 		}
 	} else {
@@ -1079,18 +1135,23 @@ func (w *world) roundTrip(r *hx.Run, c *caseT, in *instances) *result {
 		repo := &scriptRepo{desc: desc}
 		_, _, err = notation.SignOCI(ctx, s, repo, notation.SignOptions{SignerSignOptions: so, ArtifactReference: ref, UserMetadata: metaArg})
 		if err != nil {
-			res.bad("roundtrip/sign-failed:"+c.Signer, "notation.SignOCI failed for a legal input: %v", err)
+			res.noteSignFailed(c, err)
 			return res
 		}
+		// how often and under which media type SignOCI pushes is not the subject here (C11): the envelope pushed last is taken
 		if len(repo.pushed) != 1 || repo.pushMT[0] != c.Format {
-			res.bad("roundtrip/signature-not-pushed", "SignOCI pushed %d signatures (media types %v)", len(repo.pushed), repo.pushMT)
+			res.note("roundtrip/signature-pushed-otherwise-than-once-with-its-media-type")
+		}
+		if len(repo.pushed) == 0 {
+			res.note("roundtrip/no-signature-pushed")
+			res.signFailed = true
 			return res
 		}
-		sig = repo.pushed[0]
+		sig = repo.pushed[len(repo.pushed)-1]
 	}
 	checkForwarded(res, c, envp)
 	if !sameMap(desc.Annotations, t.Desc.Annotations) {
-		res.bad("metadata/callers-descriptor-modified", "the annotations of the caller's descriptor changed to %s", vt.MapString(desc.Annotations))
+		res.note("metadata/resolved-descriptor-annotations-modified") // not in this statement
 	}
 	r.Eval(1)
 	outcome, err := in.v.Verify(ctx, t.Desc, sig, notation.VerifierVerifyOptions{ArtifactReference: ref, SignatureMediaType: c.Format})
@@ -1099,19 +1160,18 @@ func (w *world) roundTrip(r *hx.Run, c *caseT, in *instances) *result {
 		return res
 	}
 	res.verified = true
-	judgeOutcome(res, c, sig, outcome, want, wantAnn, agent, false)
+	judgeOutcome(res, c, sig, outcome, want, meta, t.Desc.Annotations, agent, false)
 	if outcome == nil || outcome.EnvelopeContent == nil {
 		return res
 	}
-	primaryPayload := append([]byte(nil), outcome.EnvelopeContent.Payload.Content...)
 	for _, vo := range verifyOpts(wantAnn, false) {
 		r.Eval(1)
 		o2, err := in.v.Verify(ctx, t.Desc, sig, notation.VerifierVerifyOptions{ArtifactReference: ref, SignatureMediaType: c.Format, UserMetadata: copyMap(vo.required)})
 		if err != nil {
-			res.bad("verify-options/verification-failed:"+vo.label, "verifier.Verify requiring metadata %s rejects the signature (signed annotations %s): %v", vt.MapString(vo.required), vt.MapString(wantAnn), err)
+			res.note("verify-options/verification-failed:" + vo.label)
 			continue
 		}
-		judgeAlternate(res, o2, primaryPayload, wantAnn, vo)
+		judgeAlternate(res, c, o2, want, meta, t.Desc.Annotations, false, vo)
 	}
 	return res
 }
@@ -1140,17 +1200,14 @@ func (w *world) runRepoPath(r *hx.Run, c *caseT, res *result, s anySigner, so no
 	r.Eval(1)
 	gotDesc, sigManifest, err := notation.SignOCI(ctx, s, repo, notation.SignOptions{SignerSignOptions: so, ArtifactReference: ref, UserMetadata: metaArg})
 	if err != nil {
-		res.bad("roundtrip/sign-failed:"+c.Signer, "notation.SignOCI into an in-memory repository failed: %v", err)
+		res.noteSignFailed(c, err)
 		return
 	}
+	// what SignOCI / notation.Verify return about the manifest is the subject of C11: recorded only
 	if gotDesc.Digest != md.Digest || gotDesc.Size != md.Size || gotDesc.MediaType != md.MediaType {
-		res.bad("repository/signoci-returned-descriptor-differs", "SignOCI returned %+v for manifest %+v", gotDesc, md)
+		res.note("repository/signoci-returned-descriptor-differs")
 	}
-	sig, _, err := repo.FetchSignatureBlob(ctx, sigManifest)
-	if err != nil {
-		res.infra = fmt.Sprintf("fetch pushed signature: %v", err)
-		return
-	}
+	sig, _, ferr := repo.FetchSignatureBlob(ctx, sigManifest)
 	r.Eval(1)
 	vd, outcomes, err := notation.Verify(ctx, w.v, repo, notation.VerifyOptions{ArtifactReference: ref, MaxSignatureAttempts: 5})
 	if err != nil {
@@ -1159,18 +1216,32 @@ func (w *world) runRepoPath(r *hx.Run, c *caseT, res *result, s anySigner, so no
 	}
 	res.verified = true
 	if vd.Digest != md.Digest || vd.Size != md.Size || vd.MediaType != md.MediaType {
-		res.bad("repository/verify-returned-descriptor-differs", "notation.Verify returned %+v for manifest %+v", vd, md)
+		res.note("repository/verify-returned-descriptor-differs")
 	}
 	if len(outcomes) != 1 {
-		res.bad("repository/outcome-count", "%d outcomes on success", len(outcomes))
+		res.note("repository/outcome-count-not-one")
+	}
+	// the outcome of the signature that verified
+	var ok *notation.VerificationOutcome
+	for _, o := range outcomes {
+		if o != nil && o.Error == nil && o.EnvelopeContent != nil {
+			ok = o
+			break
+		}
+	}
+	if ok == nil {
+		res.bad("roundtrip/no-envelope-content-on-success", "notation.Verify succeeded without an outcome that carries envelope content (%d outcomes)", len(outcomes))
 		return
+	}
+	if ferr != nil || len(sig) == 0 {
+		sig = ok.RawSignature
 	}
 	var wantAnn map[string]string
 	if len(meta) > 0 {
 		wantAnn = meta
 	}
 	want := wantT{MediaType: md.MediaType, Digest: string(md.Digest), Size: md.Size, Annotations: wantAnn}
-	judgeOutcome(res, c, sig, outcomes[0], want, wantAnn, agent, false)
+	judgeOutcome(res, c, sig, ok, want, meta, nil, agent, false)
 }
 
 // ---------------------------------------------------------------------------
@@ -1207,6 +1278,16 @@ func report(r *hx.Run, c *caseT, res *result) string {
 	if res.faultClass != "" {
 		r.Outcome("fault-history/call-with-failing-reader/" + c.FaultCall + ":" + res.faultClass)
 	}
+	noted := map[string]bool{}
+	for _, k := range res.notes {
+		if !noted[k] {
+			noted[k] = true
+			r.Outcome("recorded:" + k)
+		}
+	}
+	if res.signFailed && len(res.viols) == 0 {
+		return fam + "/" + c.Signer + ":no-signature-produced(not-judged)"
+	}
 	switch {
 	case len(res.viols) > 0 && res.verified:
 		return fam + "/" + c.Signer + ":verified-but-misreported"
@@ -1223,7 +1304,9 @@ func main() {
 		"RSASSA-PSS / ECDSA / SHA-2 of the Go standard library are correct (used by the scripted plugins, lib/refsig and the oracle's digest recomputation)",
 		"the scripted plugins are honest: they sign exactly the bytes handed to them with the hash named in the request and honour expiryDurationInSeconds",
 		"the statement's 1 s expiry is replaced by 1 h so that no generated instant comes within 1 h of now",
-		"a signing error for a legal input is reported as a violation (roundtrip/sign-failed): the statement presupposes that every supported key spec can sign",
+		"the statement speaks about signatures the signing API produced: a signing error is recorded (recorded:roundtrip/sign-failed:<kind>) and the round trip not judged; a (key spec, format, signer kind) that never produces a signature ends the run as an infrastructure error (not judged), never as a violation",
+		"only what the statement fixes is enforced; further observations (outcome.Error on success, payload content type, byte identity of the reported payload, lib/refsig's own verdict, what the envelope plugin is told, how SignOCI pushes, what SignOCI/notation.Verify return about the manifest, acceptance of other verify-side options, aliasing of returned values) are evidence only (recorded:<key>)",
+		"user metadata read back for an OCI target that has annotations of its own: every signed user pair must be present and nothing but signed pairs (the statement does not say whether the target's own annotations count as user metadata); without such annotations: equality",
 		"the envelope-generator contract has no signing-agent field: for that signer kind the agent dimension selects the plugin's envelope builder (lib/forge vs notation-core-go)",
 		"the descriptor returned by VerifyBlob is judged on media type (the signed one, also when the verifier was not told a media type), digest and size; its annotations are recorded, not judged, but the returned descriptor may not differ between verifications of the same blob and signature under different verify-side options",
 		"the result of a call whose reader fails is recorded, not judged; only the honest round trip after it is judged (keys after-failed-read/...)",
@@ -1431,6 +1514,8 @@ func main() {
 	}
 	r.Extra["phase_wall_seconds"] = map[string]float64{"fault_histories_sequential": t1.Sub(t0).Seconds(), "product_and_reuse_parallel": time.Since(t1).Seconds()}
 	var verified, total int64
+	type comboT struct{ done, verified, alarmed int }
+	combos := map[string]*comboT{}
 	for i := range all {
 		c := &all[i]
 		if skipped[i] {
@@ -1443,9 +1528,18 @@ func main() {
 			continue
 		}
 		res := results[i]
+		combo := c.Spec + " x " + short(c.Format) + " x " + c.Signer
+		if combos[combo] == nil {
+			combos[combo] = &comboT{}
+		}
+		combos[combo].done++
 		if res.verified {
 			verified++
+			combos[combo].verified++
 			r.Nontrivial(c.String())
+		}
+		if len(res.viols) > 0 {
+			combos[combo].alarmed++
 		}
 		r.Outcome(report(r, c, res))
 		if i%197 == 0 && res.detail != nil {
@@ -1460,6 +1554,28 @@ func main() {
 	r.Extra["histories_whose_judged_round_trip_verified"] = verified
 	if verified == 0 {
 		r.Infra("vacuous run: none of %d judged round trips verified", total)
+	}
+	// a (key spec, format, signer kind) for which no signature was ever produced cannot be judged: that is not a
+	// violation of the statement (it speaks about produced signatures) but the run proves nothing about it
+	var names []string
+	for k := range combos {
+		names = append(names, k)
+	}
+	sort.Strings(names)
+	var unjudged []string
+	for _, k := range names {
+		cb := combos[k]
+		if cb.verified != 0 || cb.alarmed != 0 {
+			continue
+		}
+		unjudged = append(unjudged, fmt.Sprintf("%s (%d histories)", k, cb.done))
+		// exit 2 only if the run has no verdict otherwise and the combination was sampled well enough
+		if r.Violations() == 0 && cb.done >= 20 {
+			r.Infra("not judged: none of the %d histories of %s produced a signature that could be verified (see recorded:roundtrip/sign-failed)", cb.done, k)
+		}
+	}
+	if len(unjudged) > 0 {
+		r.Extra["combinations_without_any_produced_signature"] = unjudged
 	}
 	r.Finish()
 }
